@@ -257,6 +257,9 @@ type pool struct {
 	in   io.WriteCloser
 	out  *bufio.Reader
 	errb *capBuf
+
+	started int
+	served  int
 }
 
 func (p *pool) start() error {
@@ -266,9 +269,18 @@ func (p *pool) start() error {
 	}
 	cmd := exec.Command(self)
 	cmd.Env = append(os.Environ(), "C17_CHILD=1", "GOTRACEBACK=all")
-	if v := os.Getenv("C17_PROCS"); v != "" {
-		cmd.Env = append(cmd.Env, "GOMAXPROCS="+v)
+	// executors alternate between one and four Ps: with one P quiescence is reached by a single yield (cheap),
+	// with four the members, the collector loop and the closer really run in parallel
+	p.started++
+	p.served = 0
+	procs := "4"
+	if p.started%2 == 1 {
+		procs = "1"
 	}
+	if v := os.Getenv("C17_PROCS"); v != "" {
+		procs = v
+	}
+	cmd.Env = append(cmd.Env, "GOMAXPROCS="+procs)
 	p.errb = &capBuf{}
 	cmd.Stderr = p.errb
 	in, err := cmd.StdinPipe()
@@ -354,7 +366,8 @@ func (p *pool) run(class string, sp *Spec) {
 	if sp.Sample && len(oc.Findings) == 0 {
 		r.Sample(class, map[string]any{"scenario": sp.Desc(), "observed": oc.Trace, "returned": oc.Result})
 	}
-	if oc.Recycle {
+	p.served++
+	if oc.Recycle || p.served >= 250 {
 		p.stop()
 	}
 }
